@@ -51,6 +51,10 @@ class Part:
     weight: float = 1.0  # share of the time budget
     exhaustive: Callable[[str], list] | None = None  # tier -> explicit list of cases (enumeration)
     setup: Callable[["Ctx"], None] | None = None
+    # stratification: variants(tier) -> list of JSON-able variant ids; strategy(tier, variant) is then
+    # called once per variant and each variant gets its own Hypothesis run (examples split evenly)
+    variants: Callable[[str], list] | None = None
+    min_examples_per_variant: int = 4
 
 
 def derive_seed(*parts) -> int:
@@ -207,7 +211,7 @@ def _hyp_settings(max_examples: int, stateful_steps: int | None = None):
 
 
 def run_part_shard(module_name: str, part_name: str, tier: str, seed: int, shard: int,
-                   budget_s: float, n_examples: int) -> dict:
+                   budget_s: float, n_examples: int, nshards: int = 1) -> dict:
     """Run one shard of one part; returns a JSON-able result dict."""
     t0 = time.time()
     res: dict = {
@@ -255,6 +259,25 @@ def run_part_shard(module_name: str, part_name: str, tier: str, seed: int, shard
                     res["exhaustive"] = ctx.skipped_budget == 0
             elif part.stateful:
                 _run_stateful(part, ctx, tier, dseed, n_examples, run_one)
+            elif part.variants is not None:
+                from hypothesis import given
+                from hypothesis import seed as hseed
+
+                allv = list(part.variants(tier))
+                mine = allv[shard::nshards]
+                per = max(part.min_examples_per_variant, n_examples // max(1, len(mine)))
+                res["extra"]["variants_total"] = len(allv)
+                for vi, variant in enumerate(mine):
+                    strat = part.strategy(tier, variant)
+
+                    @hseed(derive_seed(dseed, json.dumps(variant, sort_keys=True, default=_json_default)))
+                    @_hyp_settings(per)
+                    @given(strat)
+                    def test_v(case):
+                        run_one(case)
+
+                    test_v()
+                    ctx.labels["variants_run"] += 1
             else:
                 from hypothesis import given
                 from hypothesis import seed as hseed
@@ -379,7 +402,7 @@ def run_property(module_name: str, tier: str, seed: int, jobs: int | None = None
         n_ex = int(p.examples.get(tier, 50))
         per = max(1, n_ex // nsh)
         for sh in range(nsh):
-            tasks.append((module_name, p.name, tier, seed, sh, budget * p.weight, per))
+            tasks.append((module_name, p.name, tier, seed, sh, budget * p.weight, per, nsh))
 
     results = []
     rdir = os.path.join(VERIF_ROOT, "regress", prop_id)
